@@ -60,8 +60,9 @@ class _LoadEvents:
     (an `if [not] _skip_load_validation():` is replaced by the branch taken when validation is not skipped)."""
     DIRECT = {"_normalize_time_period_columns": "norm", "validate_no_duplicates": "dup", "validate_temporal_columns": "temp"}
 
-    def __init__(self, P: Program) -> None:
+    def __init__(self, P: Program, skipping: bool = False) -> None:
         self.P = P
+        self.skipping = skipping  # True: specialise under _skip_load_validation() == True instead (what still happens with the documented switch on)
         self._cfg: Dict[str, CFG] = {}
         self._kinds: Dict[str, Set[str]] = {}
         self.skip_seen = False
@@ -79,7 +80,7 @@ class _LoadEvents:
                 core = t.operand if neg else t  # type: ignore[union-attr]
                 if isinstance(core, ast.Call) and _callee_name(core) == "_skip_load_validation":
                     outer.skip_seen = True
-                    taken = node.body if neg else node.orelse
+                    taken = (node.orelse if neg else node.body) if outer.skipping else (node.body if neg else node.orelse)
                     return taken or [ast.copy_location(ast.Pass(), node)]
                 return node
 
@@ -388,6 +389,8 @@ def run(rep: Report, tier: str) -> None:
     # ---- R19.9: every dataset given as a DataFrame becomes a (validated) table ----
     rep.rule("R19.9", "register_dataframes creates the table of every dataset of the script on every path of its loop (only `name not in input_datasets` skips)")
     every_dataframe_becomes_a_table(P, rep, "R19.9")
+    rep.rule("R19.10", "with VTL_SKIP_LOAD_VALIDATION set, _validate_loaded_table still normalises the Time_Period columns on every path (the switch skips checks, not canonicalisation)")
+    normalisation_with_skip_flag(P, rep, "R19.10")
     rep.assumptions = ["DuckDB regexp_matches has search semantics (patterns are anchored explicitly)",
                        "the load regex is applied to the value after vtl_period_normalize (read from _validate_loaded_table)",
                        "DuckDB read_csv with an integral column type rounds fractional literals instead of rejecting them (observed once on the installed DuckDB while writing R19.4)"]
@@ -513,3 +516,22 @@ def every_dataframe_becomes_a_table(P: Program, rep: Report, rule: str) -> None:
                         "register_dataframes can finish an iteration for a dataset of the script without creating its table (a skip that is not the `name not in input_datasets` guard): "
                         "an operand given as a DataFrame without datapoints then has no table, and the statement that reads it fails with a raw CatalogException instead of working "
                         "on an empty dataset", describe_path(p)))
+
+
+def normalisation_with_skip_flag(P: Program, rep: Report, rule: str) -> None:
+    """The documented benchmarking switch VTL_SKIP_LOAD_VALIDATION skips CHECKS (duplicates, temporal formats); the normalisation of
+    Time_Period columns to the one canonical text is not a check - every later operator and the output rendering assume it.  With every
+    function specialised under `_skip_load_validation() == True`, _validate_loaded_table still normalises on every normal path.
+    Shared between C19, C20 and C21 (spellings of one period denote the same period)."""
+    ev = _LoadEvents(P, skipping=True)
+    v = P.func(f"{IO}._validate_loaded_table")
+    if "norm" not in _LoadEvents(P).kinds(v):
+        raise AnalysisError("_validate_loaded_table no longer reaches _normalize_time_period_columns")
+    rep.instance(rule, "skip-flag/normalisation-on-every-path", nontrivial=True, sample={"switch_seen": True})
+    p = ev.path_without(v, "norm") if "norm" in ev.kinds(v) else ["(no call of _normalize_time_period_columns remains when validation is skipped)"]
+    if not ev.skip_seen:
+        raise AnalysisError("_validate_loaded_table: the VTL_SKIP_LOAD_VALIDATION test not found (anchor changed)")
+    if p is not None:
+        rep.add(Finding(rule, f"{rule}/skip-flag/normalisation-on-every-path", v.module.rel, v.node.lineno, v.qualname,
+                        "with VTL_SKIP_LOAD_VALIDATION set, _validate_loaded_table returns without normalising the Time_Period columns: the documented switch skips the checks, not the "
+                        "canonicalisation - `2021S2`, `2020-01`, `2020M1` then stay as written, are compared as different texts and are rendered as NULL or garbage by the output macros", p))
